@@ -869,9 +869,12 @@ def x2(run, lg):
             run.ob("X2", ok, f"{w}: {what} is input-driven", f"loop `{what}` is not one of the bounded data-driven forms (termination unknown)",
                    module=mod, node=lp, func=w, construct=f"{w} loop {what}")
     for q in ("consume_bytes",):
-        for m in (lg.roles.mod, lg.project.module("tpmstream.common.constraints")):
-            f = m.functions().get(q)
-            if f is not None:
+        from .shared import locate_function
+        seen_cb = set()
+        for m0 in (lg.roles.mod, lg.project.module("tpmstream.common.constraints")):
+            m, f = locate_function(lg.project, m0, q)
+            if f is not None and id(f) not in seen_cb:
+                seen_cb.add(id(f))
                 lps = [n for n in walk_no_nested(f) if isinstance(n, (ast.While, ast.For))]
                 ok = len(lps) == 1 and isinstance(lps[0], ast.For) and norm(lps[0].iter) == "range(count)"
                 run.ob("X2", ok, f"{m.name.split('.')[-1]}.consume_bytes requests exactly count bytes", "consume_bytes loop changed",
